@@ -294,6 +294,13 @@ func (r *Raft) onInstallSnapRequest(req *installSnapReq, c *conn) (rpcResult, er
 	r.setState(Follower)
 	r.setLeader(req.src)
 
+	// a snapshot that is not newer than the latest one we have brings nothing,
+	// and storing it would overwrite the file of that snapshot in place: a
+	// transfer that fails half way would leave us without it
+	if snapIndex, _ := r.snaps.latest(); req.lastIndex <= snapIndex {
+		return drain(success, nil)
+	}
+
 	// store snapshot
 	sink, err := r.snaps.new(req.lastIndex, req.lastTerm, req.lastConfig)
 	if err != nil {
